@@ -771,6 +771,11 @@ class Env:
             return T(("iter", elem(a0)))
         if short == "iter":
             return T(("iter", elem(a0)))
+        if short in ("itertools.islice", "itertools.takewhile", "itertools.dropwhile") and argts:
+            # a sub-sequence of the first / second argument's elements
+            return T(("iter", elem(argts[0] if short == "itertools.islice" else (argts[1] if len(argts) > 1 else argts[0]))))
+        if short == "itertools.chain.from_iterable" and argts:
+            return T(("iter", elem(elem(a0))))
         if short == "zip":
             return T(("iter", T(("tuple", tuple(elem(t) for t in argts)))))
         if short in ("filter", "itertools.filterfalse"):
